@@ -102,9 +102,27 @@ def forest_links(forest, pkeys):
     return out
 
 
-def sppf_validate(forest, pg, pkeys, start_name, text_len):
+def _norm_span(inp, s, e, ws):
+    """Span with every position inside a layout run mapped to the start of that
+    run (the placement of empty nodes and of node ends inside layout is C08's
+    subject, KF-C08-2; here only the covered tokens matter)."""
+    if not (isinstance(s, int) and isinstance(e, int)) or s < 0 or e < 0 or s > len(inp) or e > len(inp):
+        return ("bad", s, e)
+    while s > 0 and inp[s - 1] in ws:
+        s -= 1
+    while e > 0 and inp[e - 1] in ws:
+        e -= 1
+    if s > e:
+        return ("bad", s, e)
+    return (s, e)
+
+
+def sppf_validate(forest, pg, pkeys, start_name, text_len, inp=None, ws=" \t\n\r"):
     """C01 packed form of 'every obtainable tree is a derivation': local
-    validity of every reachable packed alternative."""
+    validity of every reachable packed alternative.  With the input given the
+    spans are judged too (modulo layout at the ends): every alternative of a
+    link covers the same text, the children of an alternative tile it in order
+    and the root covers the whole input."""
     errs = []
     valid = set(pkeys[p.prod_id] for p in pg.productions[1:])
     seen = set()
@@ -144,10 +162,30 @@ def sppf_validate(forest, pg, pkeys, start_name, text_len):
                 st.append(c)
             if tuple(kids) != key[1]:
                 errs.append(("children do not match rhs", key, tuple(kids)))
+            if inp is not None and None not in kids:
+                spans = [_norm_span(inp, c.possibilities[0].start_position, c.possibilities[0].end_position, ws) for c in poss.children]
+                own = _norm_span(inp, poss.start_position, poss.end_position, ws)
+                if own[0] == "bad" or any(x[0] == "bad" for x in spans):
+                    errs.append(("span outside of the input or inverted", own, spans))
+                elif spans:
+                    for a, b in zip(spans, spans[1:]):
+                        if a[1] != b[0]:
+                            errs.append(("children of an alternative do not tile the text", poss.production.symbol.name, spans))
+                            break
+                    if (spans[0][0], spans[-1][1]) != own:
+                        errs.append(("alternative's span is not what its children cover", poss.production.symbol.name, own, spans))
+                elif own[0] != own[1]:
+                    errs.append(("empty alternative with a non-empty span", poss.production.symbol.name, own))
             # every alternative of a link derives the link's symbol
         syms = set(p.symbol.name for p in par.possibilities)
         if len(syms) > 1:
             errs.append(("alternatives of one link derive different symbols", sorted(syms)))
+        if inp is not None:
+            covers = set(_norm_span(inp, p.start_position, p.end_position, ws) for p in par.possibilities)
+            if len(covers) > 1:
+                errs.append(("alternatives of one link cover different text", sorted(syms), sorted(map(str, covers))))
+            elif par is root and covers != {_norm_span(inp, 0, len(inp), ws)}:
+                errs.append(("root does not cover the input", sorted(map(str, covers))))
         if len(errs) > 10:
             break
     return errs
